@@ -237,6 +237,10 @@ static void do_ser(const vt_t* t, slot_t* s, std::uint32_t cap_arg)
     if (cap_arg == 0xFFFFFFFFu) { cap = t->bufsize; }
     if (cap_arg == 0xFFFFFFFEu) { cap = t->bufsize + 1; }
     if (cap_arg == 0xFFFFFFFDu) { cap = t->bufsize ? t->bufsize - 1 : 0; }
+    if (cap_arg >= 0xFFFFFFF0u && cap_arg <= 0xFFFFFFFCu) { /* bufsize - 2 ... bufsize - 14 */
+        const unsigned less = 0xFFFFFFFEu - cap_arg;
+        cap = (t->bufsize > less) ? t->bufsize - less : 0;
+    }
     auto*       buf      = alloc_exact(cap);
     std::size_t produced = 0;
     // a live C++ object is always serialisable-or-error, whatever happened to it before
@@ -301,6 +305,9 @@ int main(int argc, char** argv)
             break;
         case 2: do_des(t, s, bytes, len, (arg & 1u) != 0); break;
         case 3: do_ser(t, s, arg); break;
+        case 12: /* sweep: the object as it is, serialised into a buffer of every size from 0 to one more than advertised */
+            for (unsigned c12 = 0; c12 <= (unsigned) t->bufsize + 1u && c12 < 4096u; ++c12) { do_ser(t, s, c12); }
+            break;
         case 4: /* "poison" in C++: overwrite by a value from elsewhere (copy of a clone of another slot) */
         case 6:
             if (o != s)
